@@ -228,6 +228,24 @@ def cases(rng, tier, stats):
     stats["argument_tuples"] = nt
     stats["fault_cases"] = n
     stats["fault_kinds"] = kinds
+    # the index expression of a READ changes the length of the list being indexed (pop / push through a parameter or a global):
+    # the position is checked against the list as it is after the index has been evaluated — a located error or the element, no panic
+    from props.base import prog_case as _pc
+    ne = 0
+    for effect in ("pop", "pop2", "push", "none"):
+        for ret in (0, 1, 2, 3):
+            for via in ("param", "global"):
+                body = {"pop": [("expr", G.call("_লিস্ট-পপ", G.var("ল")))], "pop2": [("expr", G.call("_লিস্ট-পপ", G.var("ল"))), ("expr", G.call("_লিস্ট-পপ", G.var("ল")))],
+                        "push": [("expr", G.call("_লিস্ট-পুশ", G.var("ল"), G.s("নতুন")))], "none": []}[effect]
+                if via == "param":
+                    fn = ("func", "কাজ", ["ল"], body + [("return", G.num(ret))]); call = G.call("কাজ", G.var("তা"))
+                else:
+                    fn = ("func", "কাজ", [], [("decl", "ল", G.var("তা"))] + body + [("return", G.num(ret))]); call = G.call("কাজ")
+                prog = [("decl", "তা", G.lst(G.s("ক"), G.s("খ"), G.s("গ"))), fn, ("print", G.s("শুরু")),
+                        ("print", G.idx(G.var("তা"), call)), ("print", G.var("তা")), ("print", G.s("পরে"))]
+                out.append(_pc("index-effect-on-same-list", prog, info={"effect": effect, "index": ret, "via": via}))
+                ne += 1
+    stats["index_effect_on_same_list"] = ne
     from props.C06 import index_boundary_family
     ib = index_boundary_family(tier)
     out += ib
